@@ -832,6 +832,8 @@ class CallMixin(object):
         return res
 
     def inst_isinstance(self, inst, cname):
+        if inst.module is None:
+            return inst.cls == cname        # plain record standing for an object of a foreign class
         m, cls = self.find_class(inst)
         while cls is not None:
             if cls.name == cname:
